@@ -650,7 +650,7 @@ Record pool := mkPool {
   p_slots : list (slot * slot_state);       (* BTreeMap<Slot, SlotState> *)
   p_prt : prtracker;
   p_ft : ftracker;
-  p_waiting : list (blockid * blockid);     (* s2n_waiting_parent_cert: parent -> child *)
+  p_waiting : list (blockid * blockid);     (* s2n_waiting_parent_cert: (parent, child) pairs, per parent in insertion order *)
   p_panicked : bool
 }.
 Definition pool_init : pool := mkPool [] pt_init ft_init [] false.
@@ -687,6 +687,24 @@ Definition pool_handle_finalization (p : pool) (ev : fin_event) : option (pool *
 Definition pool_with_ft (p : pool) (t : ftracker) : pool := mkPool (p_slots p) (p_prt p) t (p_waiting p) (p_panicked p).
 Definition pool_with_prt (p : pool) (t : prtracker) : pool := mkPool (p_slots p) t (p_ft p) (p_waiting p) (p_panicked p).
 
+(* notify_waiting_children: every child waiting for parent [b] learns that it is certified.
+   (current tree, "fix: notify every waiting child ..."; the pinned tree kept one child per parent
+   and did not notify on fast-finalization certificates) *)
+Fixpoint notify_children (e : epoch) (p : pool) (children : list blockid) (acc : pout) : option (pool * pout) :=
+  match children with
+  | [] => Some (p, acc)
+  | (cs, ch) :: rest =>
+    let p' := p_touch p cs in
+    match notify_parent_certified e cs (p_ss p' cs) ch with
+    | None => None
+    | Some (ss', evs, rps) => notify_children e (p_set_ss p' cs ss') rest (po_app acc (mkPO evs rps))
+    end
+  end.
+Definition notify_waiting_children (e : epoch) (p : pool) (b : blockid) : option (pool * pout) :=
+  let children := map snd (filter (fun kv => bid_eqb b (fst kv)) (p_waiting p)) in
+  let p1 := mkPool (p_slots p) (p_prt p) (p_ft p) (bremove b (p_waiting p)) (p_panicked p) in
+  notify_children e p1 children po_empty.
+
 (* add_valid_cert *)
 Definition add_valid_cert (e : epoch) (p : pool) (c : cert) : option (pool * pout) :=
   let s := c_slot c in
@@ -711,17 +729,7 @@ Definition add_valid_cert (e : epoch) (p : pool) (c : cert) : option (pool * pou
     match r1 with
     | None => None
     | Some (p1, o1) =>
-      let r2 : option (pool * pout) :=
-        match blookup b (p_waiting p1) with
-        | Some (cs, ch) =>
-          let p1' := mkPool (p_slots p1) (p_prt p1) (p_ft p1) (bremove b (p_waiting p1)) (p_panicked p1) in
-          let p1'' := p_touch p1' cs in
-          match notify_parent_certified e cs (p_ss p1'' cs) ch with
-          | None => None
-          | Some (ss', evs, rps) => Some (p_set_ss p1'' cs ss', mkPO evs rps)
-          end
-        | None => Some (p1, po_empty)
-        end in
+      let r2 : option (pool * pout) := notify_waiting_children e p1 b in
       match r2 with
       | None => None
       | Some (p2, o2) =>
@@ -740,7 +748,15 @@ Definition add_valid_cert (e : epoch) (p : pool) (c : cert) : option (pool * pou
   | CFastFinal h =>
     match ft_mark_fast_finalized (p_ft p0) (s, h) with
     | None => None
-    | Some (t, ev) => finish (pool_handle_finalization (pool_with_ft p0 t) ev)
+    | Some (t, ev) =>
+      match pool_handle_finalization (pool_with_ft p0 t) ev with
+      | None => None
+      | Some (p1, o1) =>
+        match notify_waiting_children e p1 (s, h) with
+        | None => None
+        | Some (p2, o2) => finish (Some (p2, po_app o1 o2))
+        end
+      end
     end
   | CFinal =>
     match ft_mark_finalized (p_ft p0) s with
@@ -837,13 +853,13 @@ Definition pool_add_block (e : epoch) (p : pool) (b par : blockid) : pool * pres
             let p3 := p_set_ss p2 (fst b) ss' in
             match evs, rps with
             | [], [] =>
-              (mkPool (p_slots p3) (p_prt p3) (p_ft p3) (binsert par b (p_waiting p3)) (p_panicked p3),
+              (mkPool (p_slots p3) (p_prt p3) (p_ft p3) (p_waiting p3 ++ [(par, b)]) (p_panicked p3),
                RVerdict VNone, o1)
             | _, _ => (p3, RVerdict VNone, po_app o1 (mkPO evs rps))
             end
           end
         else
-          (mkPool (p_slots p2) (p_prt p2) (p_ft p2) (binsert par b (p_waiting p2)) (p_panicked p2),
+          (mkPool (p_slots p2) (p_prt p2) (p_ft p2) (p_waiting p2 ++ [(par, b)]) (p_panicked p2),
            RVerdict VNone, o1)
       end
     end.
